@@ -55,6 +55,8 @@ func (x *Exec) loopInvariants(n ast.Node) []*Clause {
 type discovery struct {
 	writes   map[string]bool
 	nonFresh map[string]bool
+	writeRefs map[string]map[string]bool
+	sym0     int
 	assigned map[types.Object]bool
 	cut      bool
 	n0       int
@@ -70,7 +72,7 @@ func (x *Exec) discover(st *State, f func(*State)) discovery {
 	x.assigned = map[types.Object]bool{}
 	x.sawCut = false
 	x.vc.quiet++
-	dd := &discovery{nonFresh: map[string]bool{}, n0: x.allocSeq}
+	dd := &discovery{nonFresh: map[string]bool{}, writeRefs: map[string]map[string]bool{}, n0: x.allocSeq, sym0: x.vc.nfresh}
 	x.discStack = append(x.discStack, dd)
 	fr := x.frame
 	savedLoops := fr.loops
@@ -90,7 +92,21 @@ func (x *Exec) discover(st *State, f func(*State)) discovery {
 	fr.rets, fr.retVals = savedRets, savedRetVals
 	x.vc.quiet--
 	x.discStack = x.discStack[:len(x.discStack)-1]
-	d := discovery{writes: x.vc.writes, nonFresh: dd.nonFresh, assigned: x.assigned, cut: x.sawCut, n0: dd.n0}
+	d := discovery{writes: x.vc.writes, nonFresh: dd.nonFresh, writeRefs: dd.writeRefs, assigned: x.assigned, cut: x.sawCut, n0: dd.n0, sym0: dd.sym0}
+	// a recorded object reference is only usable if it does not depend on state the scope modifies
+	for k, refs := range d.writeRefs {
+		for r := range refs {
+			for _, sy := range symRe.FindAllString(r, -1) {
+				if f := family(sy); f != "" {
+					for wk := range d.writes {
+						if sanitize(wk) == f {
+							d.nonFresh[k] = true
+						}
+					}
+				}
+			}
+		}
+	}
 	// drop facts produced during discovery
 	for _, f := range x.vc.facts[nf:] {
 		delete(x.vc.factSet, f)
@@ -194,7 +210,8 @@ func (x *Exec) runLoop(st *State, ls loopSpec) *State {
 		g := x.cevalClauseAt(c, st, fr, bodyPos(ls))
 		x.oblige(st, x.oblName(fr, lname+"."+c.Label+".entry"), "invariant-entry", ls.node.Pos(), c.Src, g)
 	}
-	if d.cut {
+	heldAtHead := st.held == 1
+	if d.cut && heldAtHead {
 		// the loop body releases the lock: the loop head is a virtual cut point
 		x.cutAssert(st, ls.node.Pos(), x.cutName(fr, lname+".head"), fr.recv)
 	}
@@ -208,7 +225,7 @@ func (x *Exec) runLoop(st *State, ls loopSpec) *State {
 			x.heapHavoc(st, k)
 			x.vc.Fact("(>= " + st.heap[allocKey] + " " + allocAtEntry + ")")
 		} else if !d.nonFresh[k] && !d.cut {
-			x.heapHavocFresh(st, k, allocAtEntry)
+			x.heapHavocFrame(st, k, allocAtEntry, sortedKeys(d.writeRefs[k]))
 		} else {
 			x.heapHavoc(st, k)
 		}
@@ -222,7 +239,7 @@ func (x *Exec) runLoop(st *State, ls loopSpec) *State {
 			}
 		}
 	}
-	if d.cut {
+	if d.cut && heldAtHead {
 		x.assumeInv(st, fr.recv)
 		st.secStart = st.Snapshot()
 		st.held = 1
@@ -278,7 +295,7 @@ func (x *Exec) runLoop(st *State, ls loopSpec) *State {
 				g := x.cevalClauseAt(cl, m, fr, bodyPos(ls))
 				x.oblige(m, x.oblName(fr, lname+"."+cl.Label+".preserved"), "invariant-preserved", ls.node.Pos(), cl.Src, g)
 			}
-			if d.cut {
+			if d.cut && heldAtHead {
 				x.cutAssert(m, ls.node.Pos(), x.cutName(fr, lname+".back"), fr.recv)
 			}
 		}
@@ -400,7 +417,8 @@ func (x *Exec) rangeStmt(s *ast.RangeStmt, st *State) *State {
 		}
 		ls.exitAssume = func(t *State, d discovery) string {
 			// no unvisited key remains
-			if !d.writes[domK] {
+			if !d.writes[domK] || (!d.nonFresh[domK] && !d.cut && !d.writeRefs[domK][m.S] && stableTerm(m.S, d.sym0)) {
+				// the ranged map itself is not modified by the body
 				return Eq(t.vars[vis].S, domOf(t))
 			}
 			return "(forall ((k Int)) (=> " + Select(domOf(t), "k") + " " + Select(t.vars[vis].S, "k") + "))"
